@@ -164,3 +164,8 @@ Definition inv_b (p : Position) : bool :=
   && implb' (them_ksc p) (holds_b p (sq_of (cf2 p) 7) true ROOK && (56 <=? tk) && (tk <? sq_of (cf2 p) 7))
   && implb' (them_qsc p) (holds_b p (sq_of (cf3 p) 7) true ROOK && (sq_of (cf3 p) 7 <? tk))
   && negb (in_check_them p).
+
+(* the invariant the search relies on: inv_b and at most 16 men a side (kept by every generated legal move and null move:
+   proofs/MenCount.v) *)
+Definition invs_b (p : Position) : bool :=
+  inv_b p && (popcount (c_us p) <=? 16) && (popcount (c_them p) <=? 16).
